@@ -1,31 +1,29 @@
 CONSTANTS
   TxU <- TxUDef
   BaseCoins <- BaseDef
-  H0 = 110
+  H0 = 210
   BaseDt = 1
   Lists <- NoLists
   ReorgPairs <- NoReorgs
   Dts = {1}
-  SubmitSet <- SubT
+  SubmitSet <- NoTx
   TestSet <- NoTx
-  PrioSet <- PrioT
-  Ticks <- TicksQ
+  PrioSet <- NoPrio
+  Ticks <- NoTicks
   MaxBlocks = 0
   MaxDisc = 0
   MaxReorg = 0
-  MaxPrio = 1
-  MaxTicks = 1
+  MaxPrio = 0
+  MaxTicks = 0
   MaxExpire = 0
   MinRelay = 100
   IncrRelay = 100
   Expiry = 1209600
   MaxReplClusters = 100
   MaxClusterCount = 64
-  Ext <- ExtT
-INIT Init
-NEXT Next
-VIEW View0
-INVARIANTS Consistent NextBlockValid UtxoIsReplay Bookkeeping
-PROPERTIES LoadsSound
-ACTION_CONSTRAINT PersistFocusQ Emit
+  Ext <- ExtR5
+  Cases <- CasesDef
+INIT RInit
+NEXT RNext
+INVARIANTS VictimsAreAClass CaseShape AtMostHundredClusters EmitRow
 CHECK_DEADLOCK FALSE
